@@ -22,7 +22,8 @@ TRUSTED = [
 ]
 ASSUMPTIONS = [
     "lambda > 0 (lambda in {1/8,...,4} in the runs); every sequence longer than warmup; a fresh Ridge node per fit",
-    "float64 rounding of the LAPACK solve: parameters compared at 1e-9 relative; the data are small dyadic rationals",
+    "float64 rounding of the LAPACK solve: parameters compared at 1e-9 relative; the data are small dyadic rationals, or small integers "
+    "stored in narrow dtypes (the model is dtype-free: sums are exact), initial Wout/bias values are not model inputs (they must not matter)",
     "memory-mapped buffers / multi-process accumulation (ESN workers) are not exercised: Node.fit in one process",
 ]
 
@@ -55,7 +56,18 @@ def F(rows):
 
 
 # ------------------------------------------------------------------------------------------ scenarios
+INT_RANGES = {"uint8": (0, 20), "int8": (-12, 12), "int16": (-12, 12), "int32": (-12, 12), "int64": (-12, 12),
+              "float16": (-20, 20), "float32": (-12, 12)}
+
+
+def int_rows(rng, T, dim, lo, hi):
+    return [[Fraction(rng.randint(lo, hi)) for _ in range(dim)] for _ in range(T)]
+
+
 def gen_cases(rng, n):
+    """Configuration space: data form (2-D / 3-D / ragged list), dims, warm-up, lambda, input_bias, the `Wout=` / `bias=`
+    initial values given to the constructor (None = default, an array, or a callable initializer), and the dtype of the
+    data arrays (float64 dyadic, or integer-valued data stored as uint8/int8/int16/int32/int64/float16/float32)."""
     cases = []
     for i in range(n):
         form = ["2d", "3d", "list"][i % 3]
@@ -68,13 +80,44 @@ def gen_cases(rng, n):
             lens = [T] * nseq
         else:
             lens = [warmup + rng.randint(1, 8) for _ in range(nseq)]
-        cases.append({
-            "form": form, "bias": bias, "lam": rng.choice(LAMS), "warmup": warmup, "din": din, "dout": dout,
-            "Xs": [rand_rows(rng, T, din, lim=8, maxpow=2) for T in lens],
-            "Ys": [rand_rows(rng, T, dout, lim=8, maxpow=2) for T in lens],
-            "Xtest": rand_rows(rng, rng.randint(1, 3), din, lim=8, maxpow=2),
-        })
+        c = {"form": form, "bias": bias, "lam": rng.choice(LAMS), "warmup": warmup, "din": din, "dout": dout}
+        dtype = rng.choice(list(INT_RANGES)) if rng.random() < 0.3 else "float64"
+        if dtype == "float64":
+            c["Xs"] = [rand_rows(rng, T, din, lim=8, maxpow=2) for T in lens]
+            c["Ys"] = [rand_rows(rng, T, dout, lim=8, maxpow=2) for T in lens]
+        else:
+            lo, hi = INT_RANGES[dtype]
+            c["dtype"] = dtype
+            c["Xs"] = [int_rows(rng, T, din, lo, hi) for T in lens]
+            if rng.random() < 0.5:      # targets of the same narrow type
+                c["ydtype"] = dtype
+                c["Ys"] = [int_rows(rng, T, dout, lo, hi) for T in lens]
+            else:
+                c["Ys"] = [rand_rows(rng, T, dout, lim=8, maxpow=2) for T in lens]
+        c["Xtest"] = rand_rows(rng, rng.randint(1, 3), din, lim=8, maxpow=2)
+        # initial values of the parameters: they must not survive the fit
+        r = rng.random()
+        if r < 0.25:
+            c["binit"] = ["array", [core.dyadic(rng, 8, 2) or Fraction(1) for _ in range(dout)]]
+        elif r < 0.45:
+            c["binit"] = ["const", core.dyadic(rng, 8, 2) or Fraction(3)]
+        r = rng.random()
+        if r < 0.15:
+            c["winit"] = ["array", rand_rows(rng, din, dout, 8, 2)]
+        elif r < 0.3:
+            c["winit"] = ["const", core.dyadic(rng, 8, 2) or Fraction(2)]
+        cases.append(c)
     return cases
+
+
+def _initializer(spec, shape):
+    """`Wout=` / `bias=` constructor argument: an array or a callable initializer f(*shape, dtype=..., **kw)."""
+    kind, val = spec
+    if kind == "array":
+        return np.array([[float(Fraction(v)) for v in r] for r in val] if isinstance(val[0], (list, tuple))
+                        else [[float(Fraction(v)) for v in val]], dtype=float).reshape(shape)
+    v = float(Fraction(val))
+    return lambda *shp, **kw: np.full(shp, v, dtype=float)
 
 
 def fit_impl(c, Xs=None, Ys=None):
@@ -83,16 +126,20 @@ def fit_impl(c, Xs=None, Ys=None):
     from reservoirpy.nodes import Ridge
     Xs = c["Xs"] if Xs is None else Xs
     Ys = c["Ys"] if Ys is None else Ys
-    xa = [farr(s, c["din"]) for s in Xs]
-    ya = [farr(s, c["dout"]) for s in Ys]
+    xa = [farr(s, c["din"]).astype(c.get("dtype", "float64")) for s in Xs]
+    ya = [farr(s, c["dout"]).astype(c.get("ydtype", "float64")) for s in Ys]
     if c["form"] == "2d":
         X, Y = xa[0], ya[0]
     elif c["form"] == "3d":
         X, Y = np.stack(xa), np.stack(ya)
     else:
         X, Y = xa, ya
-    node = Ridge(ridge=float(Fraction(c["lam"])), input_bias=bool(c["bias"]),
-                 name=uname("ridge"))
+    kw = {}
+    if c.get("binit"):
+        kw["bias"] = _initializer(c["binit"], (1, c["dout"]))
+    if c.get("winit"):
+        kw["Wout"] = _initializer(c["winit"], (c["din"], c["dout"]))
+    node = Ridge(ridge=float(Fraction(c["lam"])), input_bias=bool(c["bias"]), name=uname("ridge"), **kw)
     node.fit(X, Y, warmup=c["warmup"])
     return node
 
@@ -140,14 +187,17 @@ def correspondence(ctx):
             continue
         terms.append(to_coq(c, o))
         keep.append({"scenario": jsonable(c), "observed": jsonable(o)})
-        k = "%s/bias=%s/warmup=%s" % (c["form"], int(c["bias"]), "0" if c["warmup"] == 0 else ">0")
+        k = "%s/bias=%s/warmup=%s/%s%s" % (c["form"], int(c["bias"]), "0" if c["warmup"] == 0 else ">0", c.get("dtype", "float64"),
+                                         "/init" if (c.get("binit") or c.get("winit")) else "")
         dist[k] = dist.get(k, 0) + 1
         if nontrivial(c, o):
             nt.add(repr(jsonable(c)))
     failing, err = core.run_cases(ctx.pid, IMPORTS, terms, chunk=60)
     return {"evaluations": len(cases), "distinct_nontrivial": len(nt),
             "rule": "seeded Ridge(ridge=lam, input_bias=b).fit(X, Y, warmup=w) on a fresh node, X a 2-D array / 3-D array / ragged list "
-                    "(1-3 sequences, 1-8 retained rows each), input dim 1-4, output dim 1-3, lam in {1/8..4}, warmup 0-3, dyadic data; "
+                    "(1-3 sequences, 1-8 retained rows each), input dim 1-4, output dim 1-3, lam in {1/8..4}, warmup 0-3, dyadic float64 data or "
+                    "integer-valued data stored as uint8/int8/int16/int32/int64/float16/float32, default or user-given (array / callable) "
+                    "initial `Wout=` / `bias=`; "
                     "Wout, bias, run(Xtest) compared with the model at Q and the normal equations re-checked on the observed parameters; "
                     "non-trivial = at least 2 retained rows, non-zero targets and a non-zero fitted Wout; distinct by scenario text",
             "samples": [keep[0], keep[1], keep[min(12, len(keep) - 1)]],
@@ -179,8 +229,46 @@ def _objective(rows, lam, Wo, dout):
     return J + lam * sum(v * v for r in Wo for v in r)
 
 
+def _solve_exact(A, B):
+    """Gauss-Jordan over the rationals: X with A X = B (A is positive definite here)."""
+    n, m = len(A), len(B[0])
+    M = [list(A[i]) + list(B[i]) for i in range(n)]
+    for c0 in range(n):
+        p = next(r for r in range(c0, n) if M[r][c0] != 0)
+        M[c0], M[p] = M[p], M[c0]
+        piv = M[c0][c0]
+        M[c0] = [v / piv for v in M[c0]]
+        for r in range(n):
+            if r != c0 and M[r][c0] != 0:
+                f = M[r][c0]
+                M[r] = [a - f * b for a, b in zip(M[r], M[c0])]
+    return [row[n:] for row in M]
+
+
+def _optimum(c, rows):
+    """The regularised least-squares optimum of the scenario (bias row first when input_bias), exact rationals."""
+    lam, dout = Fraction(c["lam"]), c["dout"]
+    d = c["din"] + (1 if c["bias"] else 0)
+    A = [[sum(x[i] * x[j] for x, _ in rows) + (lam if i == j else 0) for j in range(d)] for i in range(d)]
+    B = [[sum(x[i] * y[k] for x, y in rows) for k in range(dout)] for i in range(d)]
+    return _solve_exact(A, B)
+
+
 def _judge(c, rng=None):
-    """Decide the property's statement directly on the real code (exact rational arithmetic, no Coq model)."""
+    """Decide the property's statement directly on the real code (exact rational arithmetic, no Coq model).  When a scenario
+    with narrow-typed data fails although the same values as float64 pass, the violation is re-keyed ridge:sums-in-input-dtype."""
+    v = _judge1(c, rng)
+    if v and (c.get("dtype", "float64") != "float64" or c.get("ydtype", "float64") != "float64") \
+            and v["key"] in ("ridge:predictor-not-optimum", "ridge:normal-equations", "ridge:not-optimal"):
+        c64 = {k: x for k, x in c.items() if k not in ("dtype", "ydtype")}
+        if _judge1(c64, None) is None:
+            v = _viol("ridge:sums-in-input-dtype", "with %s inputs / %s targets the fit is not the least-squares optimum although the same "
+                      "values given as float64 are fitted correctly (XXT / YXT accumulated in the data's dtype: overflow / rounding); %s"
+                      % (c.get("dtype", "float64"), c.get("ydtype", "float64"), v["what"]), c, v["expected"], v["observed"])
+    return v
+
+
+def _judge1(c, rng=None):
     import random
     rng = rng or random.Random(repr(jsonable(c)))
     lam, dout, din = Fraction(c["lam"]), c["dout"], c["din"]
@@ -195,6 +283,18 @@ def _judge(c, rng=None):
     if Wout.shape != (din, dout) or b.shape != (1, dout) or pred.shape != (len(c["Xtest"]), dout):
         return _viol("ridge:shape", "Wout/bias/prediction have unexpected shapes", c,
                      [[din, dout], [1, dout], [len(c["Xtest"]), dout]], [list(Wout.shape), list(b.shape), list(pred.shape)])
+    # (0) the fitted PREDICTOR is the optimum's predictor: run(x) = x~ . W*  with W* the exact solution of the regularised normal
+    #     equations of the scenario (x~ = [1] + x only with input_bias; without it there is no constant term at all)
+    Wstar = _optimum(c, _retained(c))
+    for t, x in enumerate(F(c["Xtest"])):
+        xt = ([Fraction(1)] + x) if c["bias"] else x
+        for k in range(dout):
+            e = sum(xt[i] * Wstar[i][k] for i in range(len(xt)))
+            if abs(core.frac(pred[t][k]) - e) > TOL * max(1, abs(e)):
+                return _viol("ridge:predictor-not-optimum", "after fit, run(x) is not the prediction of the regularised least-squares optimum "
+                             "(fitted bias %r, input_bias=%s, initial bias=%r, initial Wout=%r)"
+                             % (b.reshape(-1).tolist(), c["bias"], jsonable(c.get("binit")), jsonable(c.get("winit"))),
+                             c, float(e), float(pred[t][k]))
     W = [[core.frac(v) for v in r] for r in Wout.tolist()]
     bb = [core.frac(v) for v in b.reshape(-1).tolist()]
     if not c["bias"] and any(v != 0 for v in bb):
@@ -296,6 +396,29 @@ def _judge_ridge_reassigned(rng, tag):
     return None
 
 
+def _judge_bias_toggled(rng, tag):
+    """`input_bias` is a hyper-parameter that can be reassigned: fit with bias, set node.input_bias = False, fit again.  The second fit
+    is a fit "without bias": its predictor must be the bias-free optimum, i.e. equal to a fresh Ridge(input_bias=False) on the same data."""
+    rpy()
+    from reservoirpy.nodes import Ridge
+    d, o = rng.randint(1, 3), rng.randint(1, 2)
+    X, Y = farr(rand_rows(rng, 6, d), d), farr(rand_rows(rng, 6, o), o) + 3.0
+    Xt = farr(rand_rows(rng, 3, d), d)
+    a = Ridge(ridge=0.5, name=uname("tg_a")).fit(X, Y)
+    a.input_bias = False
+    try:
+        a.fit(X, Y)
+        b = Ridge(ridge=0.5, input_bias=False, name=uname("tg_b")).fit(X, Y)
+        pa, pb = np.asarray(a.run(Xt)), np.asarray(b.run(Xt))
+    except Exception as e:  # noqa: BLE001
+        return _viol("ridge:exception", "refit after input_bias toggled raises %r" % (e,), {"tag": tag, "kind": "bias-toggled"})
+    if not np.allclose(pa, pb, rtol=1e-10, atol=1e-10):
+        return _viol("ridge:stale-bias-after-input-bias-toggle", "input_bias set to False on a node fitted with bias, then refit: Wout is the bias-free "
+                     "solution but the bias learned by the previous fit is kept, so run(x) is not the optimum's prediction",
+                     {"tag": tag, "kind": "bias-toggled", "d": d, "o": o, "stale_bias": np.asarray(a.bias).tolist()}, pb.tolist(), pa.tolist())
+    return None
+
+
 def oracle(ctx, scale=1):
     rng = ctx.rng("oracle")
     cases = gen_cases(rng, ctx.n(100, 1200) * scale)
@@ -308,15 +431,25 @@ def oracle(ctx, scale=1):
         v = _judge_rejected_batch(rng, "%d_%d" % (ctx.seed, i)) or _judge_ridge_reassigned(rng, "%d_%d" % (ctx.seed, i))
         if v:
             out.append(v)
-    return {"evaluations": len(cases), "violations": out,
-            "rule": "exact-rational normal-equation residual of the observed Wout/bias, objective values at random and gradient-direction "
-                    "perturbations, Wout^T x + bias vs run(x), refit after overwriting the warm-up rows; all on the real Ridge node"}
+    for i in range(ctx.n(3, 20)):
+        v = _judge_bias_toggled(rng, "%d_%d" % (ctx.seed, i))
+        if v:
+            out.append(v)
+    return {"evaluations": len(cases) + ctx.n(10, 100) + ctx.n(3, 20), "violations": out,
+            "rule": "run(x) vs the exact-rational optimum's prediction (constant term only with input_bias), exact-rational normal-equation "
+                    "residual of the observed Wout/bias, objective values at random and gradient-direction perturbations, Wout^T x + bias "
+                    "vs run(x), refit after overwriting the warm-up rows, narrow-dtype data vs the same values as float64, user-given "
+                    "initial Wout/bias, rejected batch, ridge / input_bias reassigned between fits; all on the real Ridge node"}
 
 
 def replay(payload):
     if payload.get("scenario", {}).get("kind") == "ridge-reassigned":
         import random
         vs = [v for v in (_judge_ridge_reassigned(random.Random(i), "rq%d" % i) for i in range(20)) if v]
+        return {"violates": bool(vs), "detail": vs[:1]}
+    if payload.get("scenario", {}).get("kind") == "bias-toggled":
+        import random
+        vs = [v for v in (_judge_bias_toggled(random.Random(i), "rt%d" % i) for i in range(5)) if v]
         return {"violates": bool(vs), "detail": vs[:1]}
     if payload.get("scenario", {}).get("kind") == "rejected-batch":
         import random
